@@ -247,6 +247,14 @@ func RuleViolations() []Addr {
 		"https://example.com/foo?archive=tgz&archive=tgz", "https://example.com/foo?archive=tgz&archive=tar.gz", "https://example.com/foo?archive=",
 		"https://example.com/foo.tgz/", "https://example.com/foo.tgz?archive=zip", "https://example.com/foo?Archive=tgz", "https://example.com/x.tar.gzz",
 		"http::https://example.com/foo")
+	add("archive-form",
+		"https://example.com/foo.tgz?archive=", "https://example.com/foo.tar.gz?archive=&archive=zip", "https://example.com/foo.tgz?archive=&archive=tgz", "https://example.com/d/foo.tgz//sub?archive=")
+	add("malformed-query",
+		"git::https://example.com/r.git?ref=main&sshkey=abc;x", "git::ssh://example.com/r.git//modules/vpc?depth=1;ref=main", "git::https://example.com/r.git?ref=main&depth=%zz",
+		"https://example.com/foo.tgz?checksum=md5:%zz", "https://example.com/foo.tar.gz//sub?checksum=md5:0123;x=1", "git::https://example.com/r.git?ref=a;ref=b")
+	add("sub-path",
+		"git::https://example.com/r.git//%2e%2e/x", "git::https://example.com/r.git//a/%2E/b", "git::https://example.com/r.git//a%2F%2Fb", "https://example.com/x.tgz//sub%2f..%2f..%2f..%2fx",
+		"github.com/org/repo/%2e%2e/%2e%2e/x", "git::https://example.com/r.git//%2e", "git::https://example.com/r.git//a%2F")
 	add("archive-checksum",
 		"https://example.com/x.tgz?checksum=md5:abc", "https://example.com/x?archive=tgz&checksum=sha256:00", "https://example.com/x.tar.gz//sub?checksum=x",
 		"https://example.com/x.tgz?checksum=", "http::https://example.com/x.tgz?checksum=1")
